@@ -9,6 +9,7 @@ number of other goroutines' steps.
 import GoZero.C07.ProofsSFX
 import GoZero.C07.ProofsLCX
 import GoZero.C07.ProofsRM
+import GoZero.C07.ProofsRMX
 set_option linter.unusedSimpArgs false
 namespace GoZero.C07
 
@@ -615,12 +616,13 @@ example : (RM.run (RM.init .cacheTake) takePanicDemo).map
       (fun s => (s.ncreate 2, s.res 2, s.pc 0, s.pc 1, (s.calls 2).isNone))
     = some (0, none, RM.PC.idle, RM.PC.idle, true) := by decide
 
-/-! `Inject` (outside `RM.Reach`; what the code does): registered *before* any call it is simply the instance
+/-! `Inject` (outside `RM.Reach`, inside `RM.ReachI` when the manager is quiescent and the key holds nothing: `rm_inject_*`
+at the end of this file; what the code does): registered *before* any call it is simply the instance
 everyone gets and `create` never runs; registered *after* a successful create it replaces the stored instance, so
 later callers hold a different instance than earlier ones — `Inject` is a test hook, not covered by the property. -/
 example : ((RM.inject (RM.init .getResource) 2 5).bind fun s => RM.run s ([(0,2)] ++ List.replicate 16 (0,0))).map
-      (fun s => (s.rets.map fun r => (r.tid, r.key, r.val), s.ncreate 2))
-    = some ([(0, 2, 5)], 0) := by decide
+      (fun s => (s.rets.map fun r => (r.tid, r.key, r.val), s.ncreate 2, s.inst 2))
+    = some ([(0, 2, 5)], 1, 5) := by decide   -- (ghost: the registration counts as the key's one creation, `rm_injected_is_handed_out`)
 
 example : (((RM.run (RM.init .getResource) rmDemo).bind fun s => RM.inject s 2 5).bind fun s =>
         RM.run s ([(3,2)] ++ List.replicate 16 (3,0))).map (fun s => s.rets.map fun r => (r.tid, r.key, r.val))
@@ -713,5 +715,296 @@ example : (LC.run LC.init (lcPanicDemo.take 18)).map (fun s => (s.pc 0, (s.m 3).
     = some (LC.PC.idle, true, 0, LC.PC.b3, true) := by decide
 example : (LC.run LC.init (lcPanicDemo.take 12)).map (fun s => (s.m 3, s.owner 0, s.pc 0))
     = some (some 0, 0, LC.PC.fp) := by decide
+
+
+/-! ## Round 5: end-to-end statements over the WHOLE configuration space of the public API
+
+`*_reach_of_run`: every prefix-closed run of the executable step function — from the state the constructor builds, for
+every schedule given as a plain list — is reachable; so every theorem above holds after ANY list of (goroutine, input)
+pairs, for every user `Cfg` (all `pre` / `asrt` combinations, not only the three named ones). -/
+
+theorem sf_reach_of_run (l : List (Tid × Nat)) : ∀ (s0 s : SF.St), SF.Reach s0 → SF.run s0 l = some s → SF.Reach s := by
+  induction l with
+  | nil => intro s0 s h0 hr; simp [SF.run] at hr; subst hr; exact h0
+  | cons a l ih =>
+    intro s0 s h0 hr
+    simp only [SF.run] at hr
+    split at hr
+    · rename_i s1 hs1; exact ih s1 s (.step a.1 a.2 h0 hs1) hr
+    · simp at hr
+
+theorem lc_reach_of_run (l : List (Tid × Nat)) : ∀ (s0 s : LC.St), LC.Reach s0 → LC.run s0 l = some s → LC.Reach s := by
+  induction l with
+  | nil => intro s0 s h0 hr; simp [LC.run] at hr; subst hr; exact h0
+  | cons a l ih =>
+    intro s0 s h0 hr
+    simp only [LC.run] at hr
+    split at hr
+    · rename_i s1 hs1; exact ih s1 s (.step a.1 a.2 h0 hs1) hr
+    · simp at hr
+
+theorem rm_reach_of_run (l : List (Tid × Nat)) : ∀ (s0 s : RM.St), RM.Reach s0 → RM.run s0 l = some s → RM.Reach s := by
+  induction l with
+  | nil => intro s0 s h0 hr; simp [RM.run] at hr; subst hr; exact h0
+  | cons a l ih =>
+    intro s0 s h0 hr
+    simp only [RM.run] at hr
+    split at hr
+    · rename_i s1 hs1; exact ih s1 s (.step a.1 a.2 h0 hs1) hr
+    · simp at hr
+
+/-- **SingleFlight end to end**: after ANY schedule on a fresh `NewSingleFlight()`: every returned call got the result
+of the one execution of its flight, that flight was for its key and its leading call overlaps the caller's call, and
+every finished non-panicking execution has exactly one fresh caller. -/
+theorem sf_end_to_end (l : List (Tid × Nat)) (s : SF.St) (hr : SF.run SF.init l = some s) :
+    (∀ r ∈ s.rets, s.fnres r.exec = some r.val ∧ s.ekey r.exec = r.key ∧
+       ∀ lr, s.lret r.exec = some lr → r.inv < lr ∨ (r.fresh = true ∧ lr = r.ret)) ∧
+    (∀ k c, s.calls k = some c → s.key (s.leader c) = k ∧ s.lret c = none) := by
+  have h := sf_reach_of_run l _ _ .init hr
+  refine ⟨fun r hrm => ?_, fun k c hc => ?_⟩
+  · have a := sf_no_stale h r hrm
+    refine ⟨a.1, a.2.1, fun lr hlr => ?_⟩
+    cases hf : r.fresh with
+    | true =>
+      have := (a.2.2.1 hf).2.2
+      rw [hlr] at this
+      exact .inr ⟨rfl, by simpa using this⟩
+    | false => exact .inl ((a.2.2.2 hf).2 lr hlr)
+  · have := sf_cleanup h k c hc
+    exact ⟨this.2.2.1, this.2.2.2⟩
+
+example : (SF.run SF.init sfDemo).isSome = true := by decide
+
+/-- **LockedCalls end to end**: after ANY schedule on a fresh `NewLockedCalls()` every returned call ran its own
+function exactly once and returned that run's result. -/
+theorem lc_end_to_end (l : List (Tid × Nat)) (s : LC.St) (hr : LC.run LC.init l = some s) :
+    ∀ r ∈ s.rets, r.runs = 1 ∧ r.val = r.own := by
+  have h := lc_reach_of_run l _ _ .init hr
+  intro r hrm
+  exact lc_own_fn_once h r hrm
+
+/-- **Every user of the double-checked pattern, end to end** (all `Cfg`: `ResourceManager.GetResource`,
+`collection.Cache.Take`, `cacheNode.doTake` through any of its four entry points, and every other combination of the
+two flags): after ANY schedule on a freshly constructed object, every key was loaded successfully at most once, and any
+two calls of a key that returned an instance returned the same one. -/
+theorem rm_end_to_end (cfg : Cfg) (l : List (Tid × Nat)) (s : RM.St) (hr : RM.run (RM.init cfg) l = some s) :
+    s.cfg = cfg ∧ (∀ k, s.ncreate k ≤ 1) ∧
+    (∀ r ∈ s.rets, ∀ q ∈ s.rets, r.key = q.key → r.val ≠ 0 → q.val ≠ 0 → r.val = q.val) := by
+  have h := rm_reach_of_run l _ _ (.init cfg) hr
+  refine ⟨?_, fun k => rm_create_once h k, fun r hrm q hq hk hv hw => rm_everyone_same h r q hrm hq hk hv hw⟩
+  clear h
+  revert hr
+  generalize hs0 : RM.init cfg = s0
+  have hc : s0.cfg = cfg := by subst hs0; rfl
+  clear hs0
+  induction l generalizing s0 with
+  | nil => intro hr; simp [RM.run] at hr; subst hr; exact hc
+  | cons a l ih =>
+    intro hr
+    simp only [RM.run] at hr
+    split at hr
+    · rename_i s1 hs1; exact ih s1 (by rw [rm_cfg_constant hs1]; exact hc) hr
+    · simp at hr
+
+example : (RM.run (RM.init { pre := true, asrt := true }) takeDemo).map (fun s => (s.cfg, s.ncreate 2)) =
+    some ({ pre := true, asrt := true }, 1) := by decide
+
+/-- **Negative caching is consistent** (`cacheNode.doTake`: a query that reports "no such row" makes `doTake` store the
+not-found placeholder — in the model the instance that execution created; the harness prints such results as the id of
+that execution): whatever set of instances `isNF` stands for the placeholders, two calls of one key that returned
+something never disagree on whether the row exists — nobody is handed a row for a key somebody else was told does not
+exist, as long as the entry is cached. -/
+theorem rm_not_found_consistent {s : RM.St} (h : RM.Reach s) (isNF : Val → Prop) (r q : RRet) (hr : r ∈ s.rets)
+    (hq : q ∈ s.rets) (hk : r.key = q.key) (hrv : r.val ≠ 0) (hqv : q.val ≠ 0) : isNF r.val ↔ isNF q.val := by
+  rw [rm_everyone_same h r q hr hq hk hrv hqv]
+
+/-- … and it is reported after at most one query: the placeholder's execution is the key's one successful load. -/
+theorem rm_not_found_one_query {s : RM.St} (h : RM.Reach s) (r : RRet) (hr : r ∈ s.rets) (hv : r.val ≠ 0) :
+    s.ncreate r.key = 1 := (rm_same_instance h r hr hv).1
+
+/-! ### several instances (`objs` > 1 in the harness): nothing leaks between objects
+
+A family of objects, each built by its constructor with its own maps and its own flight group (tied:
+`tie_newSingleFlight`, `tie_newLockedCalls`, `tie_newResourceManager`, `tie_newCache_fields`), steps one object at a
+time.  Whatever the other objects do, every object of the family is a reachable configuration of the single-object
+system — so every theorem above holds for each of them — and a step of object `i` leaves every other object untouched. -/
+inductive RM.MReach : (Nat → RM.St) → Prop
+  | init (cfgs : Nat → Cfg) : RM.MReach (fun i => RM.init (cfgs i))
+  | step {m : Nat → RM.St} {s' : RM.St} (i : Nat) (t : Tid) (x : Nat) :
+      RM.MReach m → RM.step (m i) t x = some s' → RM.MReach (upd m i s')
+
+theorem rm_instances_independent {m : Nat → RM.St} (h : RM.MReach m) (i : Nat) : RM.Reach (m i) := by
+  induction h with
+  | init cfgs => exact .init (cfgs i)
+  | step j t x _ hs ih =>
+    by_cases hij : i = j
+    · subst hij; rw [upd_same]; exact .step t x ih hs
+    · rw [upd_other _ _ _ _ hij]; exact ih
+
+theorem rm_instances_untouched (m : Nat → RM.St) (i j : Nat) (s' : RM.St) (hij : j ≠ i) : upd m i s' j = m j :=
+  upd_other m i j s' hij
+
+/-- e.g. two managers with the same key: each creates its own instance once; neither sees the other's. -/
+theorem rm_instances_create_once {m : Nat → RM.St} (h : RM.MReach m) (i : Nat) (k : Key) : (m i).ncreate k ≤ 1 :=
+  rm_create_once (rm_instances_independent h i) k
+
+example : ∃ m, RM.MReach m ∧ (m 1).pc 0 = .l0 ∧ (m 0).pc 0 = .idle :=
+  ⟨_, .step (s' := { RM.init .getResource with pc := upd (RM.init .getResource).pc 0 .l0, key := upd (RM.init .getResource).key 0 2 })
+        1 0 2 (.init fun _ => .getResource) (by simp [RM.step, RM.init, Cfg.getResource]), by simp [upd], by simp [upd, RM.init]⟩
+
+
+/-! ### Round 5: `cacheNode.doTake`'s closure decisions (`RM.doTakeClosure`, tied to the translated source by
+`tie_doTake_decisions`) are the branching of rows g3 and g5 — for every cache-read / query outcome. -/
+
+/-- row g3: the closure goes on to the query iff `doTakeClosure` says it queries; otherwise it ends at once with the
+found instance (a row, or the placeholder) or with the error outcome `0` (a failed lookup). -/
+theorem rm_closure_row_g3 (s : RM.St) (t : Tid) (c : RM.CacheRead) (q : RM.QueryRes)
+    (hpc : s.pc t = .g3) (hl : s.cfg.lerr = true) (hf : s.found t = c.found) :
+    (RM.step s t c.g3Input).map (fun s' => (s'.pc t, s'.tmp t)) =
+      some (if (RM.doTakeClosure c q).queried then (.g4, s.tmp t)
+            else (.m2, if (RM.doTakeClosure c q).out = .error then 0 else s.loc t)) := by
+  unfold RM.step; rw [hpc]
+  cases c <;> cases q <;> simp [RM.CacheRead.found] at hf <;>
+    simp [hf, hl, RM.doTakeClosure, RM.CacheRead.g3Input, upd]
+
+/-- row g5: after the query the closure stores (the row, or the not-found placeholder — an instance) iff
+`doTakeClosure` says so; a failed query ends with the error outcome, nothing stored. -/
+theorem rm_closure_row_g5 (s : RM.St) (t : Tid) (q : RM.QueryRes) (v : Val) (hv : v ≠ 0) (hpc : s.pc t = .g5) :
+    (RM.step s t (q.g5Input v)).map (fun s' => s'.pc t) =
+      some (if (RM.doTakeClosure .empty q).stored then .g6 else .m2) := by
+  unfold RM.step; rw [hpc]
+  cases q <;> simp [RM.doTakeClosure, RM.QueryRes.g5Input, upd, hv]
+
+/-- a failed lookup (`doGetCache` returned a redis / context error) never runs the loader and never counts as a load:
+the flight ends with the error outcome for the leader and every joiner. -/
+theorem rm_lookup_error_no_load (s s' : RM.St) (t : Tid) (x : Nat) (hpc : s.pc t = .g3) (hf : s.found t = false)
+    (hx : x ≠ 0) (hl : s.cfg.lerr = true) (hs : RM.step s t x = some s') :
+    s'.pc t = .m2 ∧ s'.tmp t = 0 ∧ s'.ncreate = s.ncreate ∧ s'.res = s.res := by
+  unfold RM.step at hs; rw [hpc] at hs
+  simp [hf, hx, hl] at hs
+  subst hs; simp [upd]
+
+example : ((RM.run (RM.init .doTake) ([(0,2)] ++ List.replicate 9 (0,0))).bind fun s => RM.step s 0 1).map
+    (fun s => (s.pc 0, s.tmp 0, s.ncreate 2)) = some (.m2, 0, 0) := by decide
+
+
+/-! ### Round 5: who a blocked `GetResource` / `Take` call waits for (RM had no such statement before)
+
+Full statement (as `sf_keys_independent` for SingleFlight): a blocked caller waits only for the holder of a mutex — who
+exists and is enabled — or for the unfinished leader of a flight of its OWN key.  Proven (`rm_keys_independent_partial`,
+with `RM.InvL` of ProofsRMX.lean: a taken flight-group mutex / write lock has a holder inside its critical section): all
+of that for the flight-group mutex, the write lock and `Wait`.  MISSING for the full statement: when the writer at g6 is
+blocked by READERS (`nrd ≠ 0`) the readers are only counted, not identified (`nrd ≠ 0 → ∃ u at p1 / p2 / g1 / g2` needs a
+count over an unbounded set of goroutines); they are always enabled (`rm_critical_section_enabled`).  For the same
+reason there is no `rm_no_deadlock`. -/
+theorem rm_blocked_cases {s : RM.St} {t : Tid} {x : Nat} (hb : RM.step s t x = none) :
+    ((s.pc t = .l0 ∨ s.pc t = .d0) ∧ s.lock ≠ none) ∨ (s.pc t = .w1 ∧ s.wg (s.reg t) ≠ 0) ∨
+    ((s.pc t = .p0 ∨ s.pc t = .g0) ∧ s.rw ≠ none) ∨ (s.pc t = .g6 ∧ ¬(s.rw = none ∧ s.nrd = 0)) := by
+  unfold RM.step at hb
+  split at hb <;> (try split at hb) <;> simp_all
+
+theorem rm_critical_section_enabled (s : RM.St) (u : Tid) (y : Nat)
+    (hu : (s.pc u).holdsLock = true ∨ s.pc u = .g7 ∨ s.pc u = .g8 ∨ s.pc u = .p1 ∨ s.pc u = .p2 ∨ s.pc u = .g1 ∨ s.pc u = .g2) :
+    (RM.step s u y).isSome = true := by
+  unfold RM.step
+  rcases hu with hu | hu | hu | hu | hu | hu | hu
+  · revert hu; cases hpc : s.pc u <;> simp [RM.PC.holdsLock] <;> (try split) <;> simp
+  all_goals (rw [hu]; simp)
+
+/-- **Who a blocked `GetResource` / `Take` caller waits for** (every `Cfg`): the holder of the flight-group mutex — who is
+inside one of its short critical sections and can always take its next step —, the writer of the resource map (rows g7 /
+g8: one store, one unlock, always enabled), readers of the map (rows p1 p2 g1 g2 are always enabled:
+`rm_critical_section_enabled`; they are counted, not identified), or, in `Wait`, the leader of a flight *for the same
+key* that has not called `Done` yet.  Calls on other keys are never waited for. -/
+theorem rm_keys_independent_partial {s : RM.St} (h : RM.Reach s) (t : Tid) (x : Nat) (hb : RM.step s t x = none) :
+    (∃ u, s.lock = some u ∧ (s.pc u).holdsLock = true ∧ ∀ y, (RM.step s u y).isSome = true) ∨
+    (s.pc t = .w1 ∧ ∃ u, s.key u = s.key t ∧ (s.pc u).wgOne = true ∧ s.reg u = s.reg t) ∨
+    (∃ u, s.rw = some u ∧ (s.pc u = .g7 ∨ s.pc u = .g8) ∧ ∀ y, (RM.step s u y).isSome = true) ∨
+    (s.pc t = .g6 ∧ s.rw = none ∧ s.nrd ≠ 0) := by
+  have hi := RM.inv_reach h
+  have hl := RM.invL_reach h
+  rcases rm_blocked_cases hb with ⟨_, hlk⟩ | ⟨hp, hw⟩ | ⟨_, hrw⟩ | ⟨hp, hg⟩
+  · left
+    cases hlock : s.lock with
+    | none => exact absurd hlock hlk
+    | some u => exact ⟨u, rfl, hl.lockr u hlock, fun y => rm_critical_section_enabled s u y (.inl (hl.lockr u hlock))⟩
+  · right; left
+    refine ⟨hp, s.leader (s.reg t), ?_⟩
+    obtain ⟨a1, a2, a4⟩ := hi.waits t (by simp [hp, RM.PC.waits])
+    rcases a4 with hlr | ⟨hpub, hreg⟩
+    · exact absurd (hi.done _ a1 hlr).2 hw
+    · have hown := hi.owns (s.leader (s.reg t)) (by revert hpub; cases s.pc (s.leader (s.reg t)) <;> simp [RM.PC.pubd, RM.PC.owns])
+      have hk : s.key (s.leader (s.reg t)) = s.key t := by rw [← hown.2.2.1, hreg, a2]
+      refine ⟨hk, ?_, hreg⟩
+      have h0 := hi.wg0 (s.leader (s.reg t))
+      rw [hreg] at h0
+      revert hpub h0
+      cases s.pc (s.leader (s.reg t)) <;> simp [RM.PC.pubd, RM.PC.wgOne, RM.PC.after] <;> omega
+  · right; right; left
+    cases hrwv : s.rw with
+    | none => exact absurd hrwv hrw
+    | some u =>
+      have := hl.rwr u hrwv
+      exact ⟨u, rfl, this, fun y => rm_critical_section_enabled s u y (by rcases this with h1 | h1 <;> simp [h1])⟩
+  · cases hrwv : s.rw with
+    | some u =>
+      right; right; left
+      have := hl.rwr u hrwv
+      exact ⟨u, rfl, this, fun y => rm_critical_section_enabled s u y (by rcases this with h1 | h1 <;> simp [h1])⟩
+    | none =>
+      right; right; right
+      refine ⟨hp, rfl, ?_⟩
+      intro h0; exact hg ⟨hrwv, h0⟩
+
+/-- non-vacuity: goroutine 1 joined goroutine 0's flight on key 2 and is blocked in `Wait` while `create` runs. -/
+example : (RM.run (RM.init .getResource) (rmDemo.take 16)).map (fun s => (s.pc 1, (RM.step s 1 0).isSome, decide (s.key 1 = s.key 0)))
+    = some (.w1, false, true) := by decide
+
+
+/-! ### Round 5: `ResourceManager.Inject` inside the theorems (`RM.ReachI`: calls and registrations — a registration while
+no call is in progress, of a key that holds nothing, with a non-nil resource; this is how mon's `Inject` test hook is
+used and how the correspondence runs pre-register resources) -/
+
+/-- with registrations, too, each key gets its instance at most once (a registration counts as the creation) … -/
+theorem rm_inject_create_once {s : RM.St} (h : RM.ReachI s) (k : Key) : s.ncreate k ≤ 1 :=
+  ((RM.inv_reachI h).r3 k).1
+
+/-- … and everyone is handed that one instance. -/
+theorem rm_inject_same_instance {s : RM.St} (h : RM.ReachI s) (r : RRet) (hr : r ∈ s.rets) (hv : r.val ≠ 0) :
+    s.ncreate r.key = 1 ∧ r.val = s.inst r.key := by
+  have := (RM.inv_reachI h).retsI r hr hv
+  exact ⟨this.1, this.2.symm⟩
+
+theorem rm_run_keeps_instance (k : Key) (l : List (Tid × Nat)) : ∀ (s1 s2 : RM.St), RM.ReachI s1 → s1.ncreate k = 1 →
+    RM.run s1 l = some s2 → RM.ReachI s2 ∧ s2.ncreate k = 1 ∧ s2.inst k = s1.inst k := by
+  induction l with
+  | nil => intro s1 s2 h h1 hr; simp [RM.run] at hr; subst hr; exact ⟨h, h1, rfl⟩
+  | cons a l ih =>
+    intro s1 s2 h h1 hr
+    simp only [RM.run] at hr
+    split at hr
+    · rename_i s' hs'
+      have st := RM.inst_stable (RM.inv_reachI h) hs' k h1
+      have := ih s' s2 (.step a.1 a.2 h hs') st.1 hr
+      exact ⟨this.1, this.2.1, by rw [this.2.2, st.2]⟩
+    · simp at hr
+
+/-- **a registered resource is THE instance of its key for ever**: after `Inject(k, v)` (quiescent manager, `k` holds
+nothing, `v` not nil) and ANY further schedule, `create` for `k` never succeeds again and every call on `k` that
+returns a resource returns `v`. -/
+theorem rm_injected_is_handed_out {s s1 s2 : RM.St} {k : Key} {v : Val} (h : RM.ReachI s) (hq : ∀ t, s.pc t = .idle)
+    (hk : s.res k = none) (hv : v ≠ 0) (hi : RM.inject s k v = some s1) (l : List (Tid × Nat))
+    (hrun : RM.run s1 l = some s2) :
+    s2.ncreate k = 1 ∧ s2.inst k = v ∧ ∀ r ∈ s2.rets, r.key = k → r.val ≠ 0 → r.val = v := by
+  have h1 : RM.ReachI s1 := .inject k v h hq hk hv hi
+  have hs1 : s1.ncreate k = 1 ∧ s1.inst k = v := by
+    unfold RM.inject at hi
+    split at hi
+    · simp at hi; subst hi; simp [upd]
+    · simp at hi
+  obtain ⟨h2, hn, hin⟩ := rm_run_keeps_instance k l s1 s2 h1 hs1.1 hrun
+  refine ⟨hn, by rw [hin, hs1.2], fun r hr hrk hrv => ?_⟩
+  have := (rm_inject_same_instance h2 r hr hrv).2
+  rw [this, hrk, hin, hs1.2]
 
 end GoZero.C07
